@@ -1753,10 +1753,25 @@ def rule_two_sided(ctx: Ctx, prog: Program) -> None:
                     if isinstance(t, ast.Name):
                         assigned.add(t.id)
         pairs: List[Tuple[str, str, int]] = []
-        for g in _entail_guards_raw(fn):
+        par_of: Dict[int, ast.AST] = {}
+        for x in ast.walk(fn.node):
+            for c_ in ast.iter_child_nodes(x):
+                par_of[id(c_)] = x
+        guards: List[Tuple[List[ast.expr], int]] = []
+        for x in ast.walk(fn.node):
+            if isinstance(x, ast.If) and any(isinstance(y, ast.Return) and isinstance(y.value, ast.Name) and y.value.id == "PROP_ENTAILMENT" for y in x.body):
+                tests = [x.test]
+                cur_ = x
+                while isinstance(par_of.get(id(cur_)), ast.If) and par_of[id(cur_)].body == [cur_] and not par_of[id(cur_)].orelse:
+                    cur_ = par_of[id(cur_)]
+                    tests.append(cur_.test)  # `if a: if b: return ENTAILED` is `if a and b`
+                guards.append((tests, x.lineno))
+            if isinstance(x, ast.Return) and isinstance(x.value, ast.IfExp) and isinstance(x.value.body, ast.Name) and x.value.body.id == "PROP_ENTAILMENT":
+                guards.append(([x.value.test], x.lineno))
+        for tests_, gline in guards:
             names: List[str] = []
             ok_shape = True
-            conj = g.values if isinstance(g, ast.BoolOp) and isinstance(g.op, ast.And) else [g]
+            conj = [c_ for t_ in tests_ for c_ in (t_.values if isinstance(t_, ast.BoolOp) and isinstance(t_.op, ast.And) else [t_])]
             consts: List[str] = []
             for c in conj:
                 if not (isinstance(c, ast.Compare) and len(c.ops) == 1 and isinstance(c.ops[0], ast.Eq)):
@@ -1773,7 +1788,7 @@ def rule_two_sided(ctx: Ctx, prog: Program) -> None:
             if not ok_shape or len(set(names)) != 2 or len(set(consts)) > 1:
                 continue
             # the two locals are integer counters: initialised from a length / constant / count and moved by steps, or a vectorised count
-            pairs.append((names[0], [x for x in names if x != names[0]][0], g.lineno))
+            pairs.append((names[0], [x for x in names if x != names[0]][0], gline))
         if not pairs:
             continue
         # names that reach a failure exit
@@ -1819,4 +1834,4 @@ def rule_two_sided(ctx: Ctx, prog: Program) -> None:
                               "single tuple that violates it on this side is answered 'consistent'")
             else:
                 ctx.undecided_site("R-TWO-SIDED", f"{fn.name}:{lo}:{hi}", "neither bound reaches a failure exit in a form this rule reads")
-    ctx.floor("R-TWO-SIDED:point-interval entailment guards", n, 3)
+    ctx.floor("R-TWO-SIDED:point-interval entailment guards", n, 1)
